@@ -6,6 +6,8 @@ package main
 import (
 	"errors"
 	"fmt"
+	"math/bits"
+	"math/rand/v2"
 	"reflect"
 	"sort"
 	"strings"
@@ -18,13 +20,13 @@ import (
 // ---- callback ids -----------------------------------------------------------------------
 
 const (
-	idF       = 1   // final / combining function (pure or monadic continuation)
-	idSup     = 100 // + position: supplier, Kleisli step, builder step function, traverse/fold function of element
-	idRun     = 200 // + position: the state function of a StateT operand was executed
-	idHandler = 400 // recover handler
-	idIsDef   = 410 // isDefinedAt predicate of RecoverCase*
-	idThen    = 420 // then-branch of RecoverCase*
-	idInner   = 430 // state function of a StateT returned by a handler
+	idF       = 1    // final / combining function (pure or monadic continuation)
+	idSup     = 1000 // + position (< 1000): supplier, Kleisli step, builder step function, traverse/fold function of element
+	idRun     = 2000 // + position (< 1000): the state function of a StateT operand was executed
+	idHandler = 400  // recover handler
+	idIsDef   = 410  // isDefinedAt predicate of RecoverCase*
+	idThen    = 420  // then-branch of RecoverCase*
+	idInner   = 430  // state function of a StateT returned by a handler
 )
 
 func evName(id int) string {
@@ -33,7 +35,7 @@ func evName(id int) string {
 		return "F"
 	case id >= idSup && id < idRun:
 		return fmt.Sprintf("fn@%d", id-idSup)
-	case id >= idRun && id < idRun+100:
+	case id >= idRun && id < idRun+1000:
 		return fmt.Sprintf("run@%d", id-idRun)
 	case id == idHandler:
 		return "handler"
@@ -53,6 +55,7 @@ type ev struct {
 	Args []int
 	Err  error // error argument (recover handlers)
 	NoAr bool  // arguments not compared for this event
+	Opt  bool  // re-run of a program OBJECT: this user function was applied when the program was built and may stay un-invoked
 }
 
 func (e ev) String() string {
@@ -81,7 +84,9 @@ type sentErr struct {
 	nonce int
 }
 
-func (e *sentErr) Error() string { return fmt.Sprintf("injected failure of position %d (#%d)", e.pos, e.nonce) }
+func (e *sentErr) Error() string {
+	return fmt.Sprintf("injected failure of position %d (#%d)", e.pos, e.nonce)
+}
 
 func errName(e error) string {
 	if e == nil {
@@ -90,7 +95,15 @@ func errName(e error) string {
 	if s, ok := e.(*sentErr); ok {
 		return fmt.Sprintf("E%d", s.pos)
 	}
-	msg := e.Error()
+	msg := "?"
+	func() {
+		defer func() {
+			if recover() != nil {
+				msg = "Error() panics"
+			}
+		}()
+		msg = e.Error()
+	}()
 	if len(msg) > 60 {
 		msg = msg[:60] + "…"
 	}
@@ -106,6 +119,12 @@ type step struct {
 	CbArgs []int // indices into vals the user function must receive; nil: none / not compared
 	NoArgs bool  // do not compare the arguments of Cb
 	OptErr bool  // a failing position is a None given to a Try combinator: error is fp.ErrOptionEmpty
+	// Fixed: the operand of this position is a plain value handed over when the program / function value is
+	// BUILT; a later execution of that value cannot see another failure bit for it.
+	Fixed bool
+	// AtBuild: the user function of this position is applied when the program value is built (first Kleisli
+	// step of statet.Compose*): a re-run of the same program object need not invoke it again.
+	AtBuild bool
 }
 
 // final describes the continuation invoked after every position succeeded.
@@ -141,6 +160,13 @@ type site struct {
 	// Random-mask sites (long sequences, thorough only): NRandom cases, mask from the case PRNG.
 	NRandom  int
 	DynSteps func(L int) []step
+	// Sized sites: NSized = len(sizedLengths) * nSizedPatterns cases (length, failing-position pattern).
+	NSized int
+	// Fn: the library call returns a function value that the site applies (t.run): it is applied again.
+	// Prog: the result is a StateT program although the trace is modelled with another carrier.
+	Fn, Prog bool
+	// Want: expected success value (nil: not compared); set for sequence-shaped families.
+	Want func(t *T, s *site) any
 
 	failable []int // bits that can fail, ascending
 }
@@ -167,6 +193,9 @@ func (s *site) nMasks() int {
 	if s.NRandom > 0 {
 		return s.NRandom
 	}
+	if s.NSized > 0 {
+		return s.NSized
+	}
 	return 1 << uint(len(s.failable))
 }
 
@@ -191,30 +220,116 @@ type outcome struct {
 
 const nVals = 80
 
+// fmask is a set of failing positions (bit k = position k fails); positions 0..63 in lo, 64..383 in hi.
+type fmask struct {
+	lo uint64
+	hi [5]uint64
+}
+
+func (m fmask) has(k int) bool {
+	if k < 0 {
+		return false
+	}
+	if k < 64 {
+		return m.lo&(1<<uint(k)) != 0
+	}
+	k -= 64
+	return k>>6 < len(m.hi) && m.hi[k>>6]&(1<<uint(k&63)) != 0
+}
+
+func (m *fmask) set(k int) {
+	if k < 64 {
+		m.lo |= 1 << uint(k)
+		return
+	}
+	k -= 64
+	m.hi[k>>6] |= 1 << uint(k&63)
+}
+
+func (m fmask) zero() bool { return m == fmask{} }
+
+func (m fmask) count() int {
+	n := bits.OnesCount64(m.lo)
+	for _, w := range m.hi {
+		n += bits.OnesCount64(w)
+	}
+	return n
+}
+
+// merge: the bits of `fixed` come from build, all others from m.
+func (m fmask) merge(build, fixed fmask) fmask {
+	out := fmask{lo: m.lo&^fixed.lo | build.lo&fixed.lo}
+	for i := range m.hi {
+		out.hi[i] = m.hi[i]&^fixed.hi[i] | build.hi[i]&fixed.hi[i]
+	}
+	return out
+}
+
 type T struct {
 	w    *vrt.W
 	idx  int
 	s    *site
-	mask uint64
-	vals [nVals]int
-	errs [64]*sentErr
+	mask uint64    // failing positions 0..63
+	hi   [5]uint64 // failing positions 64.. (sized sequences)
+	vals []int
+	errs []*sentErr
 	log  []ev
 	out  outcome
 	bud  *vrt.Budget
 	fail bool
+	rng  *rand.Rand // the case PRNG (later executions draw their masks from it)
+	acc  map[string]int64
 
 	// panic-capture cases
 	beh      int
 	raised   any
 	exec     *inlineExec
+	escaped  any
 	custNote string
 
 	pulled     int  // elements pulled from instrumented iterators
 	nonTrivial bool // a failure had to be propagated / a user function had to stay un-invoked
 	skipped    int  // user functions of the call that correctly stayed un-invoked
+
+	// later executions of program-valued results (rerun.go)
+	init      int    // initial state of the next StateT run
+	prog      func() // runs the StateT program OBJECT of the last resSt once more (from t.init)
+	refn      func() // applies the function VALUE returned by the library call once more (t.run)
+	progRerun bool   // the execution under judgement re-ran a program object
+	nrun      int    // executions so far
+	history   []runRec
+	nlog0     int    // Custom sites: user functions invoked by the first execution
+	mask0     uint64 // Custom sites: the case's own situation (later executions change t.mask)
+	collect   bool   // violate() collects instead of reporting
+	pending   []pendVio
 }
 
-func (t *T) bit(k int) bool { return k >= 0 && t.mask&(1<<uint(k)) != 0 }
+func newT(w *vrt.W, idx int, s *site, need int) *T {
+	t := &T{w: w, idx: idx, s: s, init: state0}
+	nv, ne := nVals, 64
+	if need > nv {
+		nv = need
+	}
+	if need > ne {
+		ne = need
+	}
+	t.vals = make([]int, nv)
+	t.errs = make([]*sentErr, ne)
+	return t
+}
+
+func (t *T) bit(k int) bool {
+	if k < 0 {
+		return false
+	}
+	if k < 64 {
+		return t.mask&(1<<uint(k)) != 0
+	}
+	return fmask{hi: t.hi}.has(k)
+}
+
+func (t *T) getMask() fmask  { return fmask{lo: t.mask, hi: t.hi} }
+func (t *T) setMask(m fmask) { t.mask, t.hi = m.lo, m.hi }
 
 func (t *T) call(id int, args ...int) int {
 	t.bud.Tick()
@@ -324,23 +439,40 @@ func retError(t *T, k int) func(int) error {
 func resTry[X any](t *T, r fp.Try[X]) {
 	t.out = outcome{set: true, ok: r.IsSuccess()}
 	if t.out.ok {
-		t.out.val = r.Get()
+		t.out.val = normVal(r.Get())
 	} else {
 		t.out.err = r.Failed().Get()
 	}
 }
 
+// normVal forces a sequence-shaped result (a lazily evaluated result must do its work while the trace is
+// still being recorded; an fp.Iterator can be read only once) and normalises it to a non-nil []int.
+func normVal(v any) any {
+	var sl []int
+	switch x := v.(type) {
+	case fp.Iterator[int]:
+		sl = x.ToSeq()
+	case fp.Seq[int]:
+		sl = x
+	case []int:
+		sl = x
+	default:
+		return v
+	}
+	return append(make([]int, 0, len(sl)), sl...)
+}
+
 func resOpt[X any](t *T, r fp.Option[X]) {
 	t.out = outcome{set: true, ok: r.IsDefined()}
 	if t.out.ok {
-		t.out.val = r.Get()
+		t.out.val = normVal(r.Get())
 	}
 }
 
 func resEit[X any](t *T, r fp.Either[error, X]) {
 	t.out = outcome{set: true, ok: r.IsRight()}
 	if t.out.ok {
-		t.out.val = r.Get()
+		t.out.val = normVal(r.Get())
 	} else {
 		t.out.err = r.Left()
 	}
@@ -348,9 +480,20 @@ func resEit[X any](t *T, r fp.Either[error, X]) {
 
 const state0 = 1000
 
+// resSt runs the program from t.init and keeps the program OBJECT: t.prog runs that very value again.
 func resSt[X any](t *T, r fp.StateT[int, X]) {
-	res, _ := r.Run(state0)
-	resTry(t, res)
+	t.prog = func() {
+		res, _ := r.Run(t.init)
+		resTry(t, res)
+	}
+	t.prog()
+}
+
+// run applies a function value returned by the library (try.LiftA2(f), statet.TraverseFunc(f),
+// future.Func3(f, ex), …) and keeps it: t.refn applies that very value again.
+func (t *T) run(f func()) {
+	t.refn = f
+	f()
 }
 
 func resErr(t *T, e error) {
@@ -364,7 +507,7 @@ type expectation struct {
 	failBit int // -1: success expected
 	optErr  bool
 	hasVal  bool
-	val     int
+	val     any
 	skipped int // user functions that exist in the call but must not be invoked
 }
 
@@ -398,7 +541,7 @@ func model(s *site, t *T) expectation {
 	}
 	for _, st := range s.Steps {
 		if st.Cb != 0 {
-			x.log = append(x.log, ev{ID: st.Cb, Args: argsOf(t, st.CbArgs), NoAr: st.NoArgs})
+			x.log = append(x.log, ev{ID: st.Cb, Args: argsOf(t, st.CbArgs), NoAr: st.NoArgs, Opt: st.AtBuild && t.progRerun})
 		}
 		if s.Monad == mState && st.Bit >= 0 {
 			x.log = append(x.log, ev{ID: idRun + st.Bit})
@@ -426,6 +569,10 @@ func model(s *site, t *T) expectation {
 	}
 	if s.WantVal >= 0 {
 		x.hasVal, x.val = true, t.vals[s.WantVal]
+	} else if s.Want != nil {
+		if v := s.Want(t, s); v != nil {
+			x.hasVal, x.val = true, v
+		}
 	}
 	return x
 }
@@ -444,11 +591,12 @@ func (t *T) witness() any {
 		m["custom_case"] = t.custNote
 	}
 	if t.out.set {
-		if t.out.ok {
-			m["result"] = fmt.Sprintf("success(%v)", t.out.val)
-		} else {
-			m["result"] = "failure(" + errName(t.out.err) + ")"
-		}
+		m["result"] = t.outString()
+	}
+	if t.nrun > 0 || len(t.history) > 0 {
+		m["execution"] = t.nrun + 1
+		m["initial_state"] = t.init
+		m["earlier_executions_of_the_same_value"] = t.history
 	}
 	return m
 }
@@ -458,6 +606,16 @@ func (t *T) maskString() string {
 		return ""
 	}
 	hi := t.s.failable[len(t.s.failable)-1]
+	if hi > 70 {
+		// long sequences: list the failing positions
+		var f []string
+		for _, k := range t.s.failable {
+			if t.bit(k) {
+				f = append(f, fmt.Sprint(k))
+			}
+		}
+		return fmt.Sprintf("positions 0..%d, failing: [%s]", hi, strings.Join(f, " "))
+	}
 	var b strings.Builder
 	for k := 0; k <= hi; k++ {
 		if t.bit(k) {
@@ -471,6 +629,10 @@ func (t *T) maskString() string {
 
 func (t *T) violate(kind, detail string) {
 	t.fail = true
+	if t.collect {
+		t.pending = append(t.pending, pendVio{kind, detail})
+		return
+	}
 	t.w.Violation(t.idx, t.s.Key+"/"+kind, detail+"\n"+fmt.Sprintf("site=%s arity=%d failing positions (left to right, F=fails)=%q\nobserved calls: %v", t.s.Key, t.s.N, t.maskString(), logStrings(t.log)), t.witness())
 }
 
@@ -495,6 +657,19 @@ func (t *T) compareLog(want []ev) bool {
 	cnt := map[int]int{}
 	for _, e := range t.log {
 		cnt[e.ID]++
+	}
+	for _, e := range want {
+		if e.Opt && cnt[e.ID] == 0 {
+			// applied when the program object was built: not applied again by this re-run
+			var w2 []ev
+			for _, e2 := range want {
+				if !(e2.Opt && cnt[e2.ID] == 0) {
+					w2 = append(w2, e2)
+				}
+			}
+			want = w2
+			break
+		}
 	}
 	wantIDs := map[int]bool{}
 	for _, e := range want {
@@ -572,7 +747,7 @@ func (t *T) compareOutcome(x expectation) bool {
 			return false
 		}
 		if x.hasVal && !reflect.DeepEqual(o.val, x.val) {
-			t.violate("success-value", fmt.Sprintf("all operands succeeded; result %v, the continuation returned %v", o.val, x.val))
+			t.violate("success-value", fmt.Sprintf("all operands succeeded; result %s, expected %s", short(o.val), short(x.val)))
 			return false
 		}
 		return true
@@ -605,4 +780,13 @@ func (t *T) compareOutcome(x expectation) bool {
 	}
 	t.violate("error-identity-lost", fmt.Sprintf("the result is a failure but not the first failing operand's own error value: got %s (errors.Is=%v), want pointer-identical E%d", errName(o.err), errors.Is(o.err, want), x.failBit))
 	return false
+}
+
+// short renders a value for a report without flooding it.
+func short(v any) string {
+	s := fmt.Sprintf("%v", v)
+	if len(s) > 200 {
+		s = s[:200] + fmt.Sprintf("… (%d bytes)", len(s))
+	}
+	return s
 }
